@@ -141,9 +141,22 @@ func c16Guard(timeout time.Duration, f func() string) c16Res {
 		r.alloc = c16HeapAllocs() - a0
 		return r
 	case <-time.After(timeout):
+	}
+	// Not back within the nominal bound.  Wall-clock bounds are load-dependent (a 400 KB SQL text takes seconds to parse
+	// on an idle machine and >10 s when all cores are busy), so a hang is only reported when the call is still running
+	// after a much larger confirmation window; a late return is counted as slow, not as a violation.
+	select {
+	case r := <-ch:
+		r.alloc = c16HeapAllocs() - a0
+		c16SlowCalls++
+		return r
+	case <-time.After(20*timeout + 60*time.Second):
 		return c16Res{out: "hang", hung: true}
 	}
 }
+
+// calls that exceeded their nominal bound but returned within the confirmation window (reported in the evidence)
+var c16SlowCalls int
 
 // ---------- error classes ----------
 
@@ -1003,6 +1016,7 @@ func runC16(r *hx.Result, rng *hx.Rng, thorough bool, replay string) error {
 	if len(prim1.exported) > 0 {
 		r.Sample(map[string]interface{}{"decoder": "ReplicateTx", "valid_exported_tx_1": hx.Hex(prim1.exported[0])})
 	}
+	r.Extra["slow_calls_not_counted_as_hang"] = fmt.Sprint(c16SlowCalls)
 	r.Extra["search_only"] = "sql.ParseSQLString, pgsql fmessages.Parse*Msg, pkg/stream (ReadValue, msgReceiver, ParseVerifiableEntry), singleapp.Open header: no Lean model, panic/hang/alloc oracle only"
 	return nil
 }
@@ -1471,7 +1485,7 @@ func c16SearchSQL(c *c16Run, rng *hx.Rng, scale int) {
 		r.OracleChecks++
 		r.Eval(c16Key("sql", []byte(s)), len(s) > 0)
 		if res.hung {
-			r.Fail("C16:sql.ParseSQLString:hang", "ParseSQLString did not return within 10s", map[string]string{"input_hex": hx.Hex([]byte(s))})
+			r.Fail("C16:sql.ParseSQLString:hang", "ParseSQLString did not return within 10s + confirmation window (260s)", map[string]string{"input_hex": hx.Hex([]byte(s))})
 		}
 		if res.panicked {
 			r.Fail("C16:"+res.site, "sql.ParseSQLString panics ("+res.pval+")", map[string]string{"decoder": "sql.ParseSQLString", "input_hex": hx.Hex([]byte(s)), "input": s, "panic": res.pval})
